@@ -230,6 +230,16 @@ fn monitor(rep: &mut Report, history: u64, st: &Step) {
         }
         (Op::Authenticate(a), Outcome::Auth(res)) => {
             rep.eval();
+            // the secrets stored with a credential are what every later result is keyed with: no
+            // assertion, successful or not, changes them
+            for b in st.before.iter() {
+                if let Some(now) = st.after.iter().find(|c| c.id == b.id) {
+                    if now.hmac_uv != b.hmac_uv || now.hmac_no_uv != b.hmac_no_uv {
+                        rep.violate("an assertion changed the PRF secrets stored with a credential", format!("credential {}: gated secret {} -> {}, non-gated {} -> {}", crate::report::hex_short(&b.id), b.hmac_uv.is_some(), now.hmac_uv.is_some(), b.hmac_no_uv.is_some(), now.hmac_no_uv.is_some()), case.clone());
+                    }
+                }
+            }
+            rep.count("stored_secrets_compared_across_assertions");
             let requested = a.prf.prf.is_some() || a.prf.hashed.is_some();
             let mal = if capability { malformed_reason(st, &a.prf, false, Some(&st.resolved_allow)) } else { None };
             let shape = format!(
